@@ -268,6 +268,36 @@ class SchedLock:
         self.release()
 
 
+class SchedRLock(SchedLock):
+    """drop-in for threading.RLock: the holder may acquire it again"""
+
+    def __init__(self, sched):
+        SchedLock.__init__(self, sched)
+        self.depth = 0
+
+    def acquire(self, blocking=True, timeout=-1):
+        lt = self.sched.me()
+        me = "main" if lt is None else lt.id
+        if self.holder == me and self.depth > 0:
+            self.depth += 1
+            return True
+        SchedLock.acquire(self, blocking, timeout)
+        self.depth = 1
+        return True
+
+    def release(self):
+        if self.depth > 1:
+            self.depth -= 1
+            return
+        self.depth = 0
+        SchedLock.release(self)
+
+    __enter__ = acquire
+
+    def __exit__(self, *a):
+        self.release()
+
+
 # --------------------------------------------------------------------------
 # explorer
 
